@@ -303,7 +303,7 @@ def format_prefactor(term: Term, backend: str) -> str:
     # extract number and symbolic prefactor
     number_pref = term.prefactor
     symbol_pref = " * ".join(
-        [obj.name for obj in term.objects if isinstance(obj.base, Symbol)
+        [obj.base.name for obj in term.objects if isinstance(obj.base, Symbol)
          for _ in range(obj.exponent)]
     )
     # extract the sign
